@@ -315,6 +315,9 @@ type EnvCase struct {
 	ClassDefaults, ClassVars   KV
 	IteratorAt                 int  // 0 = none, otherwise the aggregator level that is an iterator over ["x","y"]
 	InnerIterator              bool // the task role itself is generated by an iterator over ["0","1"] that uses the same variable name (it)
+	// IncludeAt: 0 = none, otherwise the aggregator level that is an include role: its own defaults/vars (and iterator variable) are
+	// written at the include site, everything below it lives in a second workflow file whose root defines nothing itself
+	IncludeAt int
 }
 
 var caseSeq int64
@@ -362,40 +365,45 @@ func runEnv(c EnvCase) (res vh.Result) {
 	sb.WriteString(yamlMap("vars", c.Levels[0].Vars, ""))
 	sb.WriteString("roles:\n")
 	indent := "  "
+	var sub strings.Builder
+	subName := fmt.Sprintf("sub%dx%d", os.Getpid(), n)
+	cur := &sb
 	for lvl := 1; lvl < depth; lvl++ {
 		last := lvl == depth-1
 		name := fmt.Sprintf("r%d", lvl)
 		if c.IteratorAt == lvl && !last {
-			fmt.Fprintf(&sb, "%s- name: \"r%d-{{ it }}\"\n%s  for:\n%s    range: '[\"x\",\"y\"]'\n%s    var: it\n", indent, lvl, indent, indent, indent)
+			fmt.Fprintf(cur, "%s- name: \"r%d-{{ it }}\"\n%s  for:\n%s    range: '[\"x\",\"y\"]'\n%s    var: it\n", indent, lvl, indent, indent, indent)
+		} else if last && c.InnerIterator {
+			// the task role is generated by an iterator (same variable name as an outer iterator, if any)
+			fmt.Fprintf(cur, "%s- name: \"t-{{ it }}\"\n%s  for:\n%s    range: '[\"0\",\"1\"]'\n%s    var: it\n", indent, indent, indent, indent)
 		} else {
-			fmt.Fprintf(&sb, "%s- name: %s\n", indent, name)
+			fmt.Fprintf(cur, "%s- name: %s\n", indent, name)
 		}
-		sb.WriteString(yamlMap("defaults", c.Levels[lvl].Defaults, indent+"  "))
-		sb.WriteString(yamlMap("vars", c.Levels[lvl].Vars, indent+"  "))
-		if last && c.InnerIterator {
-			// re-emit the header of this role as an iterator (same variable name as an outer iterator, if any)
-			cur := sb.String()
-			hdr := fmt.Sprintf("%s- name: %s\n", indent, name)
-			if i := strings.LastIndex(cur, hdr); i >= 0 {
-				sb.Reset()
-				sb.WriteString(cur[:i])
-				fmt.Fprintf(&sb, "%s- name: \"t-{{ it }}\"\n%s  for:\n%s    range: '[\"0\",\"1\"]'\n%s    var: it\n", indent, indent, indent, indent)
-				sb.WriteString(cur[i+len(hdr):])
-			}
-		}
+		cur.WriteString(yamlMap("defaults", c.Levels[lvl].Defaults, indent+"  "))
+		cur.WriteString(yamlMap("vars", c.Levels[lvl].Vars, indent+"  "))
 		if last {
-			fmt.Fprintf(&sb, "%s  constraints:\n%s    - attribute: machine_id\n%s      value: hosta\n%s  task:\n%s    load: %s\n", indent, indent, indent, indent, indent, cls)
+			fmt.Fprintf(cur, "%s  constraints:\n%s    - attribute: machine_id\n%s      value: hosta\n%s  task:\n%s    load: %s\n", indent, indent, indent, indent, indent, cls)
 		} else {
-			fmt.Fprintf(&sb, "%s  roles:\n", indent)
+			if c.IncludeAt == lvl {
+				fmt.Fprintf(cur, "%s  include: %s\n", indent, subName)
+				cur = &sub
+				fmt.Fprintf(cur, "name: %s\nroles:\n", subName)
+				indent = "  "
+			} else {
+				fmt.Fprintf(cur, "%s  roles:\n", indent)
+				indent += "    "
+			}
 			// a call next to the next level, to see what a call at this level sees
-			fmt.Fprintf(&sb, "%s    - name: probe%d\n%s      call:\n%s        func: verifprobe.P(\"vars%d\")\n%s        trigger: before_CONFIGURE\n%s        timeout: 5s\n%s        critical: false\n", indent, lvl, indent, indent, lvl, indent, indent, indent)
-			indent += "    "
+			fmt.Fprintf(cur, "%s- name: probe%d\n%s  call:\n%s    func: verifprobe.P(\"vars%d\")\n%s    trigger: before_CONFIGURE\n%s    timeout: 5s\n%s    critical: false\n", indent, lvl, indent, indent, lvl, indent, indent, indent)
 		}
 	}
 	if depth == 1 {
 		fmt.Fprintf(&sb, "  - name: t\n    constraints:\n      - attribute: machine_id\n        value: hosta\n    task:\n      load: %s\n", cls)
 	}
 	w.WriteWorkflow(wf, sb.String())
+	if sub.Len() > 0 {
+		w.WriteWorkflow(subName, sub.String())
+	}
 	// the task template: every key has a class default, so that the command line can always be rendered
 	cd := KV{}
 	for _, k := range keys {
@@ -425,7 +433,9 @@ func runEnv(c EnvCase) (res vh.Result) {
 			w.Consul.Delete("o2/runtime/aliecs/vars/" + k)
 		}
 	}()
-	defer func() { res.History = map[string]interface{}{"workflow": sb.String(), "class": classYAML, "world_log_tail": w.LogLines(30)} }()
+	defer func() {
+		res.History = map[string]interface{}{"workflow": sb.String(), "included": sub.String(), "class": classYAML, "world_log_tail": w.LogLines(30)}
+	}()
 	fail := func(sig, f string, a ...interface{}) vh.Result {
 		res.Violation = fmt.Sprintf(f, a...)
 		res.Signature = sig
@@ -633,6 +643,9 @@ func genEnv(t *rapid.T) EnvCase {
 	if depth >= 2 && rapid.IntRange(0, 2).Draw(t, "innerIter") == 0 {
 		c.InnerIterator = true
 	}
+	if depth >= 3 && rapid.IntRange(0, 2).Draw(t, "include") == 0 {
+		c.IncludeAt = rapid.IntRange(1, depth-2).Draw(t, "includeAt")
+	}
 	return c
 }
 
@@ -644,8 +657,14 @@ func TestPrecedence(t *testing.T) {
 func TestPrecedenceFixed(t *testing.T) {
 	defer simworld.Discard()
 	vh.Fixed(t, prop, "all-sources", EnvCase{
-		Levels: []Level{{KV{"k0": "rootD", "k1": "rootD", "k2": "rootD"}, KV{"k1": "rootV"}}, {KV{"k0": "midD", "k3": ""}, KV{"k2": "", "k3": "midV"}}, {KV{"k1": "leafD", "k4": "leafD"}, KV{"k0": "leafV"}}},
+		Levels:         []Level{{KV{"k0": "rootD", "k1": "rootD", "k2": "rootD"}, KV{"k1": "rootV"}}, {KV{"k0": "midD", "k3": ""}, KV{"k2": "", "k3": "midV"}}, {KV{"k1": "leafD", "k4": "leafD"}, KV{"k0": "leafV"}}},
 		ConsulDefaults: KV{"k4": "consulD", "k0": "consulD"}, ConsulVars: KV{"k4": "consulV"}, Request: KV{"k3": "REQ"}, ClassDefaults: KV{"k2": "classD"}, ClassVars: KV{"k1": "classV"}, IteratorAt: 1}, vh.Confirmed(runEnv))
+	vh.Fixed(t, prop, "include-role-with-definitions-of-its-own", EnvCase{
+		Levels:    []Level{{KV{"k0": "rootD", "k1": "rootD"}, KV{"k2": "rootV"}}, {KV{"k0": "inclD", "k3": "inclD"}, KV{"k2": "inclV", "k4": "inclV"}}, {KV{"k3": "leafD"}, KV{}}},
+		IncludeAt: 1, ConsulDefaults: KV{"k4": "consulD"}, ConsulVars: KV{}, Request: KV{}, ClassDefaults: KV{}, ClassVars: KV{}}, vh.Confirmed(runEnv))
+	vh.Fixed(t, prop, "iterated-include-role", EnvCase{
+		Levels:     []Level{{KV{"k0": "rootD"}, KV{}}, {KV{"k0": "inclD"}, KV{"k1": "inclV"}}, {KV{}, KV{}}, {KV{"k2": "leafD"}, KV{}}},
+		IteratorAt: 1, IncludeAt: 1, ConsulDefaults: KV{}, ConsulVars: KV{}, Request: KV{}, ClassDefaults: KV{}, ClassVars: KV{}}, vh.Confirmed(runEnv))
 	vh.Fixed(t, prop, "nested-iterators-same-variable", EnvCase{
 		Levels:     []Level{{KV{"k0": "rootD"}, KV{}}, {KV{}, KV{"k1": "midV"}}, {KV{"k2": "leafD"}, KV{}}},
 		IteratorAt: 1, InnerIterator: true, ConsulDefaults: KV{}, ConsulVars: KV{}, Request: KV{}, ClassDefaults: KV{}, ClassVars: KV{}}, vh.Confirmed(runEnv))
